@@ -8,8 +8,8 @@ import shutil
 import unicodedata
 from pathlib import Path, PurePosixPath
 
-from ..core import Op, canon_exc
-from .. import aoef, aoefgen, aoef_impl, leanio
+from ..core import Op, canon_exc, jkey
+from .. import aoef, aoefgen, leanio
 
 PROPERTY = "C18"
 LEAN_MODULE = "Proofs.C18"
@@ -22,7 +22,11 @@ _THEOREM_NAMES = ["C18_relative_iff", "C18_relative_join", "C18_join_relative", 
                   # second review
                   "C18_parse_wf", "C18_parse_render_parse", "C18_relative_join_wf", "C18_render_injective",
                   "C18_string_level", "C18_relocate_to_none", "C18_relocate_from_none", "C18_recordings_of_mapPath",
-                  "C18_loaded_recordings", "C18_relocate_collection", "C18_passthrough_collection", "C18_adapter_table"]
+                  "C18_loaded_recordings", "C18_relocate_collection", "C18_passthrough_collection", "C18_adapter_table",
+                  # follow-up: histories and construction paths
+                  "C18_session_save_ok", "C18_session_save_fails", "C18_session_file_changes", "C18_session_frame",
+                  "C18_session_load", "C18_session_relocate", "C18_session_failed_save_keeps_file",
+                  "C18_session_document_reused", "C18_saves_history_free", "C18_dispatch_table", "C18_signature_table"]
 THEOREMS = [_T + n for n in _THEOREM_NAMES]
 LEVEL_TEXT = ("Lean theorems over a model of POSIX pure paths (parse, render, relative_to, join as pathlib computes "
               "them; every string parses to a well-formed path and parse . render is the identity on those) and of the "
@@ -30,28 +34,50 @@ LEVEL_TEXT = ("Lean theorems over a model of POSIX pure paths (parse, render, re
               "and is inverted by join; saving under A and loading under B maps A/x to B/x for every recording "
               "reachable from the collection by whatever route (clip, sound event, sequence, prediction, task, match), "
               "for all eight collection constructors; every recording is stored relative to the directory and saving "
-              "fails as a whole when one lies outside; without a directory (on either side) paths pass through. The "
-              "path model is compared with pathlib on every generated path, and stored / relocated paths of all eight "
-              "collection types with the real save / load (directory as str and as Path independently on both sides, "
-              "messy spellings, several saves / loads and save-load chains in one process).")
+              "fails as a whole when one lies outside; without a directory (on either side) paths pass through. "
+              "Histories: a session model (live objects and files / in-memory documents as state) with theorems that a "
+              "successful save replaces exactly the target's content whatever it held, a failing save changes nothing, "
+              "a file changes only through a save to it, one document converted under several directories relocates "
+              "each time from the saved paths, and saves are history free. The path model is compared with pathlib on "
+              "every generated path, and stored / relocated paths of all eight collection types with the real save / "
+              "load (directory as str, Path, os.PathLike and PurePosixPath, messy spellings, keyword and positional "
+              "calls, objects built by constructors / validation / JSON / copies / user-defined subclasses) and with "
+              "whole sessions of saves, loads, conversions and edits in one process.")
 LEVEL_NOTE = ("Trusted: Lean kernel; pathlib itself (its parse is compared with the model's on every generated path); "
-              "POSIX flavour only (Windows paths are out of scope). The file system is not modelled: that a failing save "
-              "leaves nothing behind (no file at the target, no other file next to it, an existing file untouched) is "
-              "observed on the real code for every failing case. That `save` creates a missing parent directory of the "
-              "target file before converting is observed and not compared.")
-TECHNIQUE = ("Lean 4 proof (path algebra and recording-adapter theorems over the AOEF model); regenerated "
-             "adapter-table obligation (introspection of ADAPTERS: one recording adapter per collection adapter, and it "
-             "got the directory); differential correspondence with pathlib and with the real save/load of all eight "
-             "collection types")
+              "POSIX flavour only (Windows paths are out of scope). Of the file system only this is modelled: a file is a "
+              "cell holding one document; a successful save replaces the cell, a failing one leaves every cell as it was, "
+              "loads do not write. That the real files behave like that (the target holds exactly the new document also "
+              "over a longer earlier file, a failing save leaves nothing behind and an existing file byte for byte "
+              "untouched, no other file changes) is observed on the real code at every save of every case. That `save` "
+              "creates a missing parent directory of the target before converting is observed and not compared. A "
+              "PurePosixPath as *load* directory and anything but str / Path as `Recording.path` are outside the "
+              "quantifier (pydantic rejects them today). The very large collections (> 36 clips) are checked for "
+              "well-formedness by the harness, not by the model's `wf` (quadratic).")
+TECHNIQUE = ("Lean 4 proof (path algebra, recording-adapter theorems over the AOEF model, session semantics over objects "
+             "and files); three regenerated table obligations (introspection of ADAPTERS: one recording adapter per "
+             "collection adapter, and it got the directory; subclass instances are converted by their type's adapter; "
+             "positions of the positional parameters of the six public functions); differential correspondence with "
+             "pathlib, with the real save/load of all eight collection types, and with sessions of saves / loads / "
+             "conversions / edits in one process")
 RULE = ("distinct (operation, input) cases on which the real code produced paths (or the expected failure): path "
-        "strings against pathlib, stored paths and relocated paths of every recording of a collection")
+        "strings against pathlib, stored paths and relocated paths of every recording of a collection; sessions "
+        "(`session`): 64 / 512 template sessions (8 kinds x 8 types: same target longer-shorter-longer, failing save "
+        "over an existing file, same objects under other directories and files, recording moved after the first save "
+        "by assignment / model_copy, loaded object changed and saved back, caller changes a loaded object, one "
+        "in-memory document converted several times, construction paths of one content) plus 16 / 128 random walks, "
+        "8-16 steps each, every step judged by pathlib arithmetic and by the session model")
 TRUSTED = ["pathlib.PurePosixPath (compared with the model on every generated path)",
-           "harness/aoef.py conversions (shared with C01)"]
+           "harness/aoef.py `build` (constructors of soundevent.data; shared with C01); the generic walker over "
+           "pydantic fields that reads `Recording.path` of live objects",
+           "expected values come from pathlib arithmetic on the input (`_want_stored`, `_want_relocated`, "
+           "`_session_oracle`) and from the Lean model, never from soundevent"]
 ASSUMPTIONS = ["POSIX path flavour"]
 NOT_COMPARED = ["creation of the target file's parent directory before the conversion fails",
                 "error messages and error classes (only: an exception is raised and nothing is left behind in the "
                 "target directory)",
-                "the spelling of a loaded path beyond pathlib equality (str(Path(p)) is compared)"]
+                "the spelling of a loaded path beyond pathlib equality (str(Path(p)) is compared)",
+                "the class of the loaded collection and every field other than the recordings' uuids and paths (C01)",
+                "whether `Recording.path` of a loaded recording is a Path or a str"]
 
 PARTS = ["a", "b", "sub dir", "ünï", "x.y", ".hidden", "..", "...", " ", "rec.wav", "ñandú 1.WAV", "data", "audio", "a",
          " lead", "trail ", "tab\there", "estacio\u0301n", "estaci\u00f3n", "..x", "~"]
@@ -121,31 +147,233 @@ def _converters():
     return (f, g) if callable(f) and callable(g) else None
 
 
-def _do_save(obj, target, audio_dir, how, api="io", fmt="aoef"):
-    """save `obj` to `target` by one of the public routes"""
-    ad = aoef_impl.adir(audio_dir, how)
-    if api == "aoef":
+class FsPath:
+    """a user-defined `os.PathLike` that is not a pathlib class: besides `str`, what `soundevent.data.PathLike`
+    (`Union[os.PathLike, str]`) admits"""
+
+    def __init__(self, s):
+        self._s = s
+
+    def __fspath__(self):
+        return self._s
+
+    def __repr__(self):
+        return f"FsPath({self._s!r})"
+
+
+DIR_KINDS_SAVE = ["str", "path", "fspath", "pure"]
+DIR_KINDS_LOAD = ["str", "path", "fspath"]     # a pure path as load directory is outside the quantifier: `dir / p` is then
+#                                                a PurePosixPath, which pydantic rejects as `Recording.path` today
+
+
+def _as_path(d, how="str"):
+    """a directory / a file name as the caller may pass it: `str`, `pathlib.Path`, `PurePosixPath`, or a
+    user-defined `os.PathLike`"""
+    if d is None:
+        return None
+    if how == "path":
+        return Path(d)
+    if how == "pure":
+        return PurePosixPath(d)
+    if how == "fspath":
+        return FsPath(d)
+    return d
+
+
+def _do_save(obj, target, audio_dir, how, api="io", fmt="aoef", target_as="str"):
+    """save `obj` to `target` by one of the public routes, keyword and positional"""
+    ad = _as_path(audio_dir, how)
+    tp = _as_path(target, target_as)
+    if api in ("aoef", "aoef_positional"):
         from soundevent.io import aoef as real
-        real.save(obj, target, audio_dir=ad)
-    elif api == "positional":
-        from soundevent import io
+        if api == "aoef":
+            real.save(obj, tp, audio_dir=ad)
+        else:
+            real.save(obj, tp, ad)
+        return
+    from soundevent import io
+    if api == "positional":
         io.save(obj, Path(target), ad)
+    elif api == "positional_full":
+        io.save(obj, tp, ad, fmt)
     else:
-        from soundevent import io
-        io.save(obj, target, audio_dir=ad, format=fmt)
+        io.save(obj, tp, audio_dir=ad, format=fmt)
 
 
-def _do_load(target, audio_dir, how, api="io", fmt="aoef", ty=None):
-    ad = aoef_impl.adir(audio_dir, how)
-    if api == "aoef":
+def _do_load(target, audio_dir, how, api="io", fmt="aoef", ty=None, target_as="str"):
+    ad = _as_path(audio_dir, how)
+    tp = _as_path(target, target_as)
+    if api in ("aoef", "aoef_positional"):
         from soundevent.io import aoef as real
-        return real.load(target, audio_dir=ad) if ty is None else real.load(target, audio_dir=ad, type=ty)
+        if api == "aoef_positional":
+            return real.load(tp, ad) if ty is None else real.load(tp, ad, ty)
+        return real.load(tp, audio_dir=ad) if ty is None else real.load(tp, audio_dir=ad, type=ty)
     from soundevent import io
     if api == "positional":
         return io.load(Path(target), ad)
+    if api == "positional_full":
+        return io.load(tp, ad, fmt) if ty is None else io.load(tp, ad, fmt, ty)
     if ty is not None:
-        return io.load(target, audio_dir=ad, format=fmt, type=ty)
-    return io.load(target, audio_dir=ad, format=fmt)
+        return io.load(tp, audio_dir=ad, format=fmt, type=ty)
+    return io.load(tp, audio_dir=ad, format=fmt)
+
+
+# ------------------------------------------------------------------ live objects: walking, construction paths, edits
+def _is_model(x):
+    return hasattr(type(x), "model_fields") and not isinstance(x, type)
+
+
+def _recording_class():
+    from soundevent import data
+    return data.Recording
+
+
+def _live_recordings(root):
+    """every `Recording` instance reachable from a live object through declared pydantic fields, each instance
+    once (by identity) -- whatever the classes in between are called (instances of user-defined subclasses of
+    the collection classes are walked like any other)"""
+    R = _recording_class()
+    seen, out, todo = set(), [], [root]
+    while todo:
+        x = todo.pop()
+        if isinstance(x, (list, tuple)):
+            todo.extend(x)
+            continue
+        if not _is_model(x) or id(x) in seen:
+            continue
+        seen.add(id(x))
+        if isinstance(x, R):
+            out.append(x)
+            continue
+        for name in type(x).model_fields:
+            todo.append(getattr(x, name, None))
+    return out
+
+
+def _live_paths(root):
+    """[[uuid, path], ...] of every recording reachable from a live object, sorted (observe_at: `Recording.path` of
+    every recording reachable from the loaded object)"""
+    out = {}
+    for r in _live_recordings(root):
+        out[str(r.uuid)] = str(PurePosixPath(os.fspath(r.path)))
+    return sorted([u, p] for u, p in out.items())
+
+
+def _snapshot(obj):
+    """the whole content of a live object as text: an argument must read the same before and after a call"""
+    try:
+        return obj.model_dump_json(warnings=False)
+    except TypeError:
+        return obj.model_dump_json()
+
+
+_SUBCLASSES = {}
+
+
+def _subclass_of(cls):
+    """a user-defined subclass of a collection class (one more field with a default, one more method), as a
+    project would write it: `class LabProject(data.AnnotationProject): ...`"""
+    if cls not in _SUBCLASSES:
+        _SUBCLASSES[cls] = type("Lab" + cls.__name__, (cls,), {
+            "__annotations__": {"lab_note": str}, "lab_note": "kept by the lab", "__module__": __name__,
+            "n_members": lambda self: sum(len(v) for v in vars(self).values() if isinstance(v, list))})
+    return _SUBCLASSES[cls]
+
+
+_FALLBACKS = [0]
+BUILD_HOWS = ["ctor", "validate", "validate_json", "deepcopy", "copy_deep", "subclass", "subclass_validate"]
+
+
+def _construct(cj, how="ctor", rec_path_as=None):
+    """the live collection carrying the content `cj`, by one of several construction paths:
+    ctor               constructors, objects with one uuid shared by reference (harness/aoef.py)
+    validate           `Cls.model_validate(obj.model_dump())`: every occurrence its own Python object
+    validate_json      `Cls.model_validate_json(obj.model_dump_json())`
+    deepcopy           `copy.deepcopy(obj)`
+    copy_deep          `obj.model_copy(deep=True)`
+    subclass           an instance of a user-defined subclass of the collection class, children shared
+    subclass_validate  the same through `Sub.model_validate(obj.model_dump())`
+    `rec_path_as="str"`: every `Recording.path` is a `str` afterwards (assignment is not validated) instead of
+    a `Path`.  A construction path that does not reproduce the recording paths of `cj` (a fault of the path
+    itself, not of save / load) falls back to the constructors."""
+    base = aoef.build(cj)
+    obj = base
+    try:
+        if how == "validate":
+            obj = type(base).model_validate(base.model_dump())
+        elif how == "validate_json":
+            obj = type(base).model_validate_json(base.model_dump_json())
+        elif how == "deepcopy":
+            obj = copy.deepcopy(base)
+        elif how == "copy_deep":
+            obj = base.model_copy(deep=True)
+        elif how == "subclass":
+            obj = _subclass_of(type(base))(**{f: getattr(base, f) for f in type(base).model_fields})
+        elif how == "subclass_validate":
+            obj = _subclass_of(type(base)).model_validate(base.model_dump())
+        if obj is not base and _live_paths(obj) != _live_paths(base):
+            obj = base
+            _FALLBACKS[0] += 1
+    except leanio.InfraError:
+        raise
+    except Exception:  # noqa: BLE001
+        obj = base
+        _FALLBACKS[0] += 1
+    if rec_path_as == "str":
+        for r in _live_recordings(obj):
+            r.path = os.fspath(r.path)
+    return obj
+
+
+def _copy_tree(x, f, memo):
+    """`model_copy(update=…)` all the way up: every recording `r` with `f(r)` not None is replaced by that copy,
+    every object that (transitively) holds a replaced one is replaced by `model_copy(update={field: new})`;
+    objects that hold none are kept; sharing is preserved"""
+    if isinstance(x, list):
+        ys = [_copy_tree(v, f, memo) for v in x]
+        return ys if any(a is not b for a, b in zip(ys, x)) else x
+    if not _is_model(x):
+        return x
+    if id(x) in memo:
+        return memo[id(x)][1]
+    if isinstance(x, _recording_class()):
+        y = f(x)
+        y = x if y is None else y
+    else:
+        upd = {}
+        for name in type(x).model_fields:
+            v = getattr(x, name, None)
+            w = _copy_tree(v, f, memo)
+            if w is not v:
+                upd[name] = w
+        y = x.model_copy(update=upd) if upd else x
+    memo[id(x)] = (x, y)
+    return y
+
+
+MOVE_HOWS = ["assign", "assign_str", "model_copy", "model_copy_str", "copy_assign"]
+
+
+def _move(obj, src, dst, how):
+    """every recording of the live object at `src` is at `dst` afterwards -> the live object to go on with
+    (the same one after an assignment, a new one after `model_copy(update=...)` / `copy.copy` + assignment: whatever
+    an earlier save remembered *on* the recording object travels with such a copy)"""
+    hit = lambda r: PurePosixPath(os.fspath(r.path)) == PurePosixPath(src)
+    new = dst if how.endswith("_str") else Path(dst)
+    if how.startswith("assign"):
+        for r in _live_recordings(obj):
+            if hit(r):
+                r.path = new
+        return obj
+    if how == "copy_assign":
+        def moved(r):
+            if not hit(r):
+                return None
+            r2 = copy.copy(r)
+            r2.path = new
+            return r2
+        return _copy_tree(obj, moved, {})
+    return _copy_tree(obj, lambda r: r.model_copy(update={"path": new}) if hit(r) else None, {})
 
 
 def _rec_paths_of_data(data):
@@ -159,20 +387,38 @@ def _rec_paths_of_doc(path):
 SENTINEL = "{\"earlier\": \"content\"}\n"
 
 
+def _read_doc_paths(path):
+    """the recording entries of a written file -> {"val": ...}; a file that is not one JSON document (e.g. the
+    tail of an earlier, longer file left behind) is reported as such"""
+    try:
+        return {"val": _rec_paths_of_doc(path)}
+    except (ValueError, KeyError, TypeError, AttributeError) as e:
+        return {"val": None, "unreadable": repr(e)[:200]}
+
+
 def _stored_of(obj, inp):
-    """save one (already built) object as `inp` says -> the recording paths of the document | the failure"""
+    """save one (already built) object as `inp` says -> the recording paths of the document | the failure;
+    `mutated` when the call changed its argument"""
     api, fmt, pre = inp.get("api", "io"), inp.get("format", "aoef"), inp.get("pre")
-    conv = _converters() if api == "convert" else None
+    how = inp.get("dir_as", "str")
+    conv = _converters() if api in ("convert", "convert_positional") else None
+    snap = _snapshot(obj)
+
+    def done(out):
+        if _snapshot(obj) != snap:
+            out["mutated"] = True
+        return out
     if conv is not None:
         # the conversion step of `save` on its own (public `to_aeof`): no file is involved
         try:
-            doc = conv[0](obj, audio_dir=aoef_impl.adir(inp.get("audio_dir"), inp.get("dir_as", "str")))
-            return {"val": _rec_paths_of_data(json.loads(doc.model_dump_json(exclude_none=True))["data"])}
+            ad = _as_path(inp.get("audio_dir"), how)
+            doc = conv[0](obj, ad) if api == "convert_positional" else conv[0](obj, audio_dir=ad)
+            return done({"val": _rec_paths_of_data(json.loads(doc.model_dump_json(exclude_none=True))["data"])})
         except leanio.InfraError:
             raise
         except Exception as e:  # noqa: BLE001
-            return canon_exc(e)
-    if api == "convert":
+            return done(canon_exc(e))
+    if api in ("convert", "convert_positional"):
         api = "io"
     d = _fresh_dir()
     target = os.path.join(d, "doc.json")
@@ -180,21 +426,26 @@ def _stored_of(obj, inp):
         target = os.path.join(d, "not yet", "there", "doc.json")
     elif pre == "file":
         open(target, "w").write(SENTINEL)
+    elif pre == "longer":
+        # an earlier, much longer AOEF document at the same path
+        open(target, "w").write(json.dumps(aoef.aoef_file({"collection_type": "recording_set", "uuid": "0" * 32,
+                                                          "recordings": [], "padding": "x" * 200000})))
+    before = open(target).read() if pre in ("file", "longer") else None
     try:
         try:
-            _do_save(obj, target, inp.get("audio_dir"), inp.get("dir_as", "str"), api, fmt)
+            _do_save(obj, target, inp.get("audio_dir"), how, api, fmt, inp.get("target_as", "str"))
         except leanio.InfraError:
             raise
         except Exception as e:  # noqa: BLE001
             out = canon_exc(e)
             left = _listing(d)
-            if pre == "file" and os.path.exists(target) and open(target).read() == SENTINEL:
+            if before is not None and os.path.exists(target) and open(target).read() == before:
                 left = [f for f in left if f != "doc.json"]      # an earlier file, untouched
             out["file_written"] = bool(left)
             if left:
                 out["left_behind"] = left
-            return out
-        return {"val": _rec_paths_of_doc(target)}
+            return done(out)
+        return done(_read_doc_paths(target))
     finally:
         shutil.rmtree(d, ignore_errors=True)
 
@@ -202,7 +453,7 @@ def _stored_of(obj, inp):
 def _impl_stored(inp):
     """'path' of every entry of data.recordings in the written JSON; on failure: nothing may have been written"""
     try:
-        obj = aoef.build(inp["collection"])
+        obj = _construct(inp["collection"], inp.get("build", "ctor"), inp.get("rec_path_as"))
     except leanio.InfraError:
         raise
     except Exception as e:  # noqa: BLE001
@@ -226,6 +477,11 @@ def _want_stored(cj, A):
 
 
 def _judge_stored(inp, out, where=""):
+    if out.get("mutated"):
+        return f"{where}the save changed the object it was given (its content reads differently after the call)"
+    if out.get("unreadable"):
+        return (f"{where}the written file is not one JSON document ({out['unreadable']}): something of an earlier "
+                "file at the same path is still there")
     if out.get("file_written"):
         return (f"{where}saving failed but something was written in the target directory: "
                 f"{out.get('left_behind')}")
@@ -249,7 +505,7 @@ def _holds_stored(ctx, inp, out):
 
 
 def _cmp_sorted_val(inp, io, mo):
-    a = {k: v for k, v in io.items() if k not in ("trace", "file_written", "left_behind")}
+    a = {k: v for k, v in io.items() if k not in ("trace", "file_written", "left_behind", "mutated", "unreadable")}
     if "raise" in a and "raise" in mo:
         return None         # the property pins *that* saving fails, not the class of the error
     if "val" in mo:
@@ -282,23 +538,25 @@ def _impl_relocate(inp):
     """save under A, load under B (fresh file, fresh call): Recording.path of every reachable recording"""
     api, fmt = inp.get("api", "io"), inp.get("format", "aoef")
     how_s = inp.get("dir_as", "str")
-    how_l = inp.get("load_as", how_s)
+    how_l = inp.get("load_as") or ("str" if how_s == "pure" else how_s)
+    tas = inp.get("target_as", "str")
     d = None
     try:
-        obj = aoef.build(inp["collection"])
-        conv = _converters() if api == "convert" else None
+        obj = _construct(inp["collection"], inp.get("build", "ctor"), inp.get("rec_path_as"))
+        conv = _converters() if api in ("convert", "convert_positional") else None
         if conv is not None:
-            doc = conv[0](obj, audio_dir=aoef_impl.adir(inp.get("save_dir"), how_s))
+            sd, ld = _as_path(inp.get("save_dir"), how_s), _as_path(inp.get("load_dir"), how_l)
+            doc = conv[0](obj, sd) if api == "convert_positional" else conv[0](obj, audio_dir=sd)
             doc = type(doc).model_validate_json(doc.model_dump_json(exclude_none=True))
-            back = conv[1](doc, audio_dir=aoef_impl.adir(inp.get("load_dir"), how_l))
-            return {"val": _all_recordings(aoef.dump(back))}
-        if api == "convert":
+            back = conv[1](doc, ld) if api == "convert_positional" else conv[1](doc, audio_dir=ld)
+            return {"val": _live_paths(back)}
+        if api in ("convert", "convert_positional"):
             api = "io"
         d = _fresh_dir()
         target = os.path.join(d, "doc.json")
-        _do_save(obj, target, inp.get("save_dir"), how_s, api, fmt)
-        back = _do_load(target, inp.get("load_dir"), how_l, api, fmt, _load_type(inp))
-        return {"val": _all_recordings(aoef.dump(back))}
+        _do_save(obj, target, inp.get("save_dir"), how_s, api, fmt, tas)
+        back = _do_load(target, inp.get("load_dir"), how_l, api, fmt, _load_type(inp), tas)
+        return {"val": _live_paths(back)}
     except leanio.InfraError:
         raise
     except Exception as e:  # noqa: BLE001
@@ -392,7 +650,7 @@ def _impl_relocate_many(inp):
         outs = []
         for B, how in zip(loads, hows):
             try:
-                outs.append({"val": _all_recordings(aoef.dump(_do_load(target, B, how)))})
+                outs.append({"val": _live_paths(_do_load(target, B, how))})
             except leanio.InfraError:
                 raise
             except Exception as e:  # noqa: BLE001
@@ -441,7 +699,7 @@ def _impl_relocate_chain(inp):
         try:
             _do_save(obj, target, st.get("save_dir"), st.get("dir_as", "str"))
             obj = _do_load(target, st.get("load_dir"), st.get("load_as", "str"))
-            outs.append({"val": _all_recordings(aoef.dump(obj))})
+            outs.append({"val": _live_paths(obj)})
         except leanio.InfraError:
             raise
         except Exception as e:  # noqa: BLE001
@@ -464,6 +722,327 @@ def _holds_relocate_chain(ctx, inp, out):
             return None
         paths = nxt
     return None
+
+
+# ------------------------------------------------------------------ sessions: objects and files as state
+FILE_APIS = ["io", "io", "aoef", "positional", "positional_full", "aoef_positional"]
+
+
+def _doc_paths(doc):
+    """the recording entries of an in-memory document, as `save` would write them"""
+    return _rec_paths_of_data(json.loads(doc.model_dump_json(exclude_none=True))["data"])
+
+
+_DOC_CLASS = []
+
+
+def _doc_class():
+    """the class of the documents `to_aeof` returns (found by converting a one-recording set once)"""
+    if not _DOC_CLASS:
+        cj = _minimal(random.Random(0), "recording_set", "/x/y.wav")
+        _DOC_CLASS.append(type(_converters()[0](aoef.build(cj))))
+    return _DOC_CLASS[0]
+
+
+def _poison(obj):
+    """the caller changes an object that a load returned, in place: every recording elsewhere, the last member
+    of every list of the collection gone"""
+    for r in _live_recordings(obj):
+        r.path = Path("/poisoned by the caller") / Path(os.fspath(r.path)).name
+    for name in type(obj).model_fields:
+        v = getattr(obj, name, None)
+        if isinstance(v, list) and v:
+            v.pop()
+
+
+def _impl_session(inp):
+    """a sequence of steps in one process over named live objects and named files in one directory:
+    put   a live object carrying `collection`, built by the construction path `how`
+    move  every recording of a live object at `src` is moved to `dst` (assignment / model_copy(update=...))
+    save  a live object to a file (the same file may be the target again and again)
+    load  a file into a live object
+    poison  the caller changes a loaded object in place
+    convert / revive / parse / dump   the same through the public converters `to_aeof` / `to_soundevent` on
+            in-memory documents: one document object may be converted to objects several times, under
+            several directories, and written out afterwards
+    -> the output of every step; after every save / load every *other* file must hold what it held before, a
+    failing save must leave *every* file as it was, the saved object must read as before the call; at the end
+    every loaded object that was not touched must still read as when it was returned"""
+    d = _fresh_dir()
+    objs, docs, outs, live, notes = {}, {}, [], [], []
+
+    def fpath(f):
+        return os.path.join(d, f + ".json")
+
+    def files_state():
+        out = {}
+        for n in _listing(d):
+            with open(os.path.join(d, n), "rb") as fh:
+                out[n] = fh.read()
+        return out
+
+    known = {st["file"] + ".json" for st in inp["steps"] if "file" in st}
+
+    def changed(before, allowed=(), strict=False):
+        """files that differ from `before`: after a failing save (`strict`) any difference counts (nothing may be
+        written at all); otherwise only the files of the session count (a successful save / a load may keep
+        whatever else it likes next to them: the property does not speak about that)"""
+        now = files_state()
+        return sorted(n for n in set(before) | set(now) if before.get(n) != now.get(n) and n not in allowed
+                      and (strict or n in known))
+    try:
+        for k, st in enumerate(inp["steps"]):
+            do = st.get("do")
+            try:
+                if do == "put":
+                    objs[st["obj"]] = _construct(st["collection"], st.get("how", "ctor"), st.get("rec_path_as"))
+                    out = {"val": _live_paths(objs[st["obj"]])}
+                elif do == "move":
+                    old = objs[st["obj"]]
+                    live = [x for x in live if x[1] is not old]
+                    objs[st["obj"]] = _move(old, st["src"], st["dst"], st.get("how", "assign"))
+                    out = {"val": _live_paths(objs[st["obj"]])}
+                elif do == "save":
+                    obj = objs[st["obj"]]
+                    before, snap = files_state(), _snapshot(obj)
+                    try:
+                        _do_save(obj, fpath(st["file"]), st.get("audio_dir"), st.get("dir_as", "str"), st.get("api", "io"),
+                                 st.get("format", "aoef"), st.get("target_as", "str"))
+                        out = _read_doc_paths(fpath(st["file"]))
+                    except leanio.InfraError:
+                        raise
+                    except Exception as e:  # noqa: BLE001
+                        out = canon_exc(e)
+                    ch = changed(before, (st["file"] + ".json",) if "val" in out else (), strict="val" not in out)
+                    if ch:
+                        out["changed"] = ch
+                    if _snapshot(obj) != snap:
+                        out["mutated"] = True
+                elif do == "load":
+                    before = files_state()
+                    obj = _do_load(fpath(st["file"]), st.get("audio_dir"), st.get("dir_as", "str"), st.get("api", "io"),
+                                   st.get("format", "aoef"), st.get("type"), st.get("target_as", "str"))
+                    objs[st["into"]] = obj
+                    out = {"val": _live_paths(obj)}
+                    live.append((k, obj, out["val"]))
+                    ch = changed(before)
+                    if ch:
+                        out["changed"] = ch
+                elif do == "convert":
+                    # `to_aeof` on its own: an in-memory document
+                    obj = objs[st["obj"]]
+                    snap = _snapshot(obj)
+                    ad = _as_path(st.get("audio_dir"), st.get("dir_as", "str"))
+                    try:
+                        doc = _converters()[0](obj, ad) if st.get("positional") else _converters()[0](obj, audio_dir=ad)
+                        docs[st["doc"]] = doc
+                        out = {"val": _doc_paths(doc)}
+                    except leanio.InfraError:
+                        raise
+                    except Exception as e:  # noqa: BLE001
+                        out = canon_exc(e)
+                    if _snapshot(obj) != snap:
+                        out["mutated"] = True
+                elif do == "revive":
+                    # `to_soundevent` on a document object that may have been converted before
+                    doc = docs[st["doc"]]
+                    snap = _snapshot(doc)
+                    ad = _as_path(st.get("audio_dir"), st.get("dir_as", "str"))
+                    obj = _converters()[1](doc, ad) if st.get("positional") else _converters()[1](doc, audio_dir=ad)
+                    objs[st["into"]] = obj
+                    out = {"val": _live_paths(obj)}
+                    live.append((k, obj, out["val"]))
+                    if _snapshot(doc) != snap:
+                        out["mutated"] = True
+                elif do == "parse":
+                    # the text of a file as an in-memory document
+                    with open(fpath(st["file"])) as fh:
+                        docs[st["doc"]] = _doc_class().model_validate_json(fh.read())
+                    out = {"val": _doc_paths(docs[st["doc"]])}
+                elif do == "dump":
+                    # an in-memory document written out, the way `save` writes it
+                    before = files_state()
+                    with open(fpath(st["file"]), "w") as fh:
+                        fh.write(docs[st["doc"]].model_dump_json(exclude_none=True))
+                    out = _read_doc_paths(fpath(st["file"]))
+                    ch = changed(before, (st["file"] + ".json",))
+                    if ch:
+                        out["changed"] = ch
+                elif do == "poison":
+                    obj = objs[st["obj"]]
+                    live = [x for x in live if x[1] is not obj]
+                    _poison(obj)
+                    out = None
+                else:
+                    out = None
+            except leanio.InfraError:
+                raise
+            except Exception as e:  # noqa: BLE001
+                out = canon_exc(e)
+                if out["raise"].startswith("crash:"):
+                    out["trace"] = repr(e)[:300]
+            outs.append(out)
+        for k, obj, first in live:
+            try:
+                now = _live_paths(obj)
+            except Exception as e:  # noqa: BLE001
+                now = canon_exc(e)
+            if now != first:
+                notes.append({"step": k, "first": first[:4], "now": now[:4] if isinstance(now, list) else now})
+        return {"steps": outs, "notes": notes}
+    finally:
+        shutil.rmtree(d, ignore_errors=True)
+
+
+def _norm_paths(pairs):
+    return {u: str(PurePosixPath(p)) for u, p in pairs}
+
+
+MEM = "in memory: "      # cells of the model that are in-memory documents, not files
+
+
+def _session_oracle(steps):
+    """the session by pathlib arithmetic on {uuid: path} maps alone: what every step must report
+    -> list of ("recs" | "stored", {uuid: path}) | ("fail",) | ("none",)"""
+    paths, files, want = {}, {}, []
+    for st in steps:
+        do = st.get("do")
+        if do == "put":
+            paths[st["obj"]] = _norm_paths(_all_recordings(st["collection"]))
+            want.append(("recs", dict(paths[st["obj"]])))
+        elif do == "move":
+            cur = paths.get(st["obj"])
+            if cur is None:
+                want.append(("fail",))
+                continue
+            src = PurePosixPath(st["src"])
+            cur = {u: (str(PurePosixPath(st["dst"])) if PurePosixPath(p) == src else p) for u, p in cur.items()}
+            paths[st["obj"]] = cur
+            want.append(("recs", dict(cur)))
+        elif do in ("save", "convert"):
+            cur = paths.get(st["obj"])
+            w = None if cur is None else _want_relocated(cur, st.get("audio_dir"), None)
+            if w is None:
+                want.append(("fail",))
+            else:
+                files[st["file"] if do == "save" else MEM + st["doc"]] = w
+                want.append(("stored", dict(w)))
+        elif do in ("load", "revive"):
+            q = files.get(st["file"] if do == "load" else MEM + st["doc"])
+            if q is None:
+                want.append(("fail",))
+            else:
+                paths[st["into"]] = _want_relocated(q, None, st.get("audio_dir"))
+                want.append(("recs", dict(paths[st["into"]])))
+        elif do in ("parse", "dump"):
+            src, dst = (st["file"], MEM + st["doc"]) if do == "parse" else (MEM + st["doc"], st["file"])
+            if files.get(src) is None:
+                want.append(("fail",))
+            else:
+                files[dst] = dict(files[src])
+                want.append(("stored", dict(files[dst])))
+        else:
+            if do == "poison":
+                paths.pop(st.get("obj"), None)
+            want.append(("none",))
+    return want
+
+
+def _step_text(st):
+    do = st.get("do")
+    if do == "put":
+        return f"put {st['obj']} ({st['collection']['type']}, built by {st.get('how', 'ctor')})"
+    if do == "move":
+        return f"move {st['src']!r} -> {st['dst']!r} in {st['obj']} by {st.get('how', 'assign')}"
+    if do == "save":
+        return f"save {st['obj']} -> {st['file']} under {st.get('audio_dir')!r}"
+    if do == "load":
+        return f"load {st['file']} under {st.get('audio_dir')!r} -> {st['into']}"
+    if do == "convert":
+        return f"{st['doc']} = to_aeof({st['obj']}, {st.get('audio_dir')!r})"
+    if do == "revive":
+        return f"{st['into']} = to_soundevent({st['doc']}, {st.get('audio_dir')!r})"
+    if do == "parse":
+        return f"{st['doc']} = the document parsed from {st['file']}"
+    if do == "dump":
+        return f"write {st['doc']} to {st['file']}"
+    return str(do)
+
+
+def _holds_session(ctx, inp, io):
+    if not isinstance(io, dict) or "steps" not in io:
+        return f"the session driver failed: {jkey(io)[:200]}"
+    steps = inp["steps"]
+    want = _session_oracle(steps)
+    trail = []
+    for k, (st, w, out) in enumerate(zip(steps, want, io["steps"])):
+        trail.append(_step_text(st))
+        where = f"step {k + 1} of {len(steps)} in one process [{'; '.join(trail[-5:])}]: "
+        if w[0] == "none":
+            continue
+        out = out or {}
+        if out.get("changed"):
+            return where + (f"files changed that the step must not touch (a failing save: anything; otherwise the other "
+                            f"files of the session): {out['changed']}")
+        if out.get("mutated"):
+            return where + ("the conversion changed the document it was given (it reads differently after the call)"
+                            if st.get("do") == "revive" else "the save / conversion changed the object it was given")
+        if out.get("unreadable"):
+            return where + (f"the written file is not one JSON document ({out['unreadable']}): something of the file "
+                            "that was at the same path before is still there")
+        if w[0] == "fail":
+            if "val" in out:
+                if st.get("do") in ("save", "convert"):
+                    return where + f"a recording lies outside the audio directory {st.get('audio_dir')!r} but saving did not fail"
+                return where + "the step succeeded although the session has no such object / file"
+            continue
+        if "val" not in out:
+            return where + f"raised {out.get('raise')} ({str(out.get('trace', ''))[:120]}) where the property gives {w[0]} paths"
+        got = {u: p for u, p in out["val"]}
+        for u, p in w[1].items():
+            if got.get(u) != p:
+                what = "stored path" if w[0] == "stored" else "path"
+                return where + f"recording {u}: {what} {got.get(u)!r}, expected {p!r}"
+    for n in io.get("notes", []):
+        return (f"the object returned by the load at step {n['step'] + 1} changed after later steps "
+                f"(was {jkey(n['first'])[:160]} now {jkey(n['now'])[:160]})")
+    return None
+
+
+def _cmp_session(inp, io, mo):
+    outs = io.get("steps") if isinstance(io, dict) else None
+    if outs is None or len(outs) != len(mo):
+        return "implementation and model disagree (number of steps)"
+    for k, (a, b) in enumerate(zip(outs, mo)):
+        if b is None:
+            continue
+        a = {x: v for x, v in (a or {}).items() if x not in ("changed",)}
+        if "val" in a and "val" in b:
+            a = {"val": sorted(a["val"] or [])}
+        msg = _cmp_sorted_val(inp, a, b)
+        if msg:
+            return f"step {k + 1} of {len(outs)} ({_step_text(inp['steps'][k])}): {msg}"
+    return None
+
+
+_MODEL_STEP_KEYS = ("do", "obj", "collection", "src", "dst", "file", "audio_dir", "into")
+
+
+def _model_step(st):
+    do = st.get("do")
+    if do == "convert":
+        return {"do": "save", "obj": st["obj"], "file": MEM + st["doc"], "audio_dir": st.get("audio_dir")}
+    if do == "revive":
+        return {"do": "load", "file": MEM + st["doc"], "audio_dir": st.get("audio_dir"), "into": st["into"]}
+    if do == "parse":
+        return {"do": "copy", "from": st["file"], "to": MEM + st["doc"]}
+    if do == "dump":
+        return {"do": "copy", "from": MEM + st["doc"], "to": st["file"]}
+    return {k: st[k] for k in _MODEL_STEP_KEYS if k in st}
+
+
+def _session_to_model(inp):
+    return {"steps": [_model_step(st) for st in inp["steps"]]}
 
 
 # ------------------------------------------------------------------ paths that exist on disk
@@ -593,7 +1172,87 @@ def _adapter_rows():
     return rows
 
 
+def _dispatch_rows():
+    """(collection type, `collection_type` of the document `save` writes for a smallest instance of the class,
+    the same for an instance of a user-defined subclass of the class) -- observed by saving"""
+    rng = random.Random("C18-dispatch")
+    rows = []
+    d = _fresh_dir()
+    try:
+        for ty in aoefgen.TYPES:
+            cj = _minimal(rng, ty, "/c18 probe/x.wav")
+            seen = []
+            for how in ("ctor", "subclass"):
+                obj = _construct(cj, how)
+                if how == "subclass" and type(obj).__name__[:3] != "Lab":
+                    seen.append("<no subclass instance could be built>")
+                    continue
+                target = os.path.join(d, f"{ty}_{how}.json")
+                try:
+                    _do_save(obj, target, None, "str")
+                    seen.append(str(json.load(open(target))["data"]["collection_type"]))
+                except leanio.InfraError:
+                    raise
+                except Exception as e:  # noqa: BLE001
+                    seen.append(f"<{type(e).__name__}>")
+            rows.append((ty, seen[0], seen[1]))
+    finally:
+        shutil.rmtree(d, ignore_errors=True)
+    return rows
+
+
+SIG_FUNCTIONS = [("io.save", "soundevent.io", "save"), ("io.load", "soundevent.io", "load"),
+                 ("aoef.save", "soundevent.io.aoef", "save"), ("aoef.load", "soundevent.io.aoef", "load"),
+                 ("aoef.to_aeof", "soundevent.io.aoef", "to_aeof"), ("aoef.to_soundevent", "soundevent.io.aoef", "to_soundevent")]
+
+
+def _signature_rows():
+    """(function, parameter, position among the positional parameters) of the public functions, by
+    `inspect.signature`; a function that is gone or takes `*args` is not listed"""
+    import importlib
+    import inspect
+    rows = []
+    for label, mod, name in SIG_FUNCTIONS:
+        try:
+            fn = getattr(importlib.import_module(mod), name, None)
+            params = list(inspect.signature(fn).parameters.values())
+        except Exception:  # noqa: BLE001
+            continue
+        if any(q.kind == q.VAR_POSITIONAL for q in params):
+            continue
+        pos = [q.name for q in params if q.kind in (q.POSITIONAL_ONLY, q.POSITIONAL_OR_KEYWORD)]
+        rows += [(label, n, i) for i, n in enumerate(pos)]
+    return rows
+
+
 def _tables(ctx):
+    ctx.stage("table: adapters", _table_adapters, ctx)
+    ctx.stage("table: dispatch of subclass instances", _table_dispatch, ctx)
+    ctx.stage("table: positional parameters", _table_signatures, ctx)
+    ctx.discharge(["Proofs.C18"])
+
+
+def _table_dispatch(ctx):
+    rows = _dispatch_rows()
+    q = lambda x: json.dumps(x, ensure_ascii=False)
+    src = ("def extractedDispatch : List SE.Proofs.C18.DispatchRow := ["
+           + ", ".join(f"⟨{q(t)}, {q(a)}, {q(b)}⟩" for t, a, b in rows) + "]\n"
+           "example : SE.Proofs.C18.DispatchOK extractedDispatch := by decide\n"
+           "example (c : SE.Aoef.Collection) : ∃ r ∈ extractedDispatch, r.type = c.typeName ∧ r.exact = c.typeName ∧\n"
+           "    r.subclass = c.typeName := SE.Proofs.C18.C18_dispatch_table extractedDispatch (by decide) c\n")
+    ctx.obligation("subclass_instances_use_their_types_adapter", src, {"rows": rows})
+
+
+def _table_signatures(ctx):
+    rows = _signature_rows()
+    q = lambda x: json.dumps(x, ensure_ascii=False)
+    src = ("def extractedSignatures : List (String × String × Nat) := ["
+           + ", ".join(f"({q(f)}, {q(n)}, {i})" for f, n, i in rows) + "]\n"
+           "example : SE.Proofs.C18.SigOK extractedSignatures := by decide\n")
+    ctx.obligation("positional_parameters_as_called", src, {"rows": rows, "listed": sorted({f for f, _n, _i in rows})})
+
+
+def _table_adapters(ctx):
     rows = _adapter_rows()
     b = lambda x: "true" if x else "false"
     lean_rows = ", ".join(f'⟨{json.dumps(n, ensure_ascii=False)}, {k}, {b(s)}, {b(f)}, {b(j)}, {b(p)}⟩' for n, k, s, f, j, p in rows)
@@ -603,7 +1262,6 @@ def _tables(ctx):
            "    r.storesRelative = true ∧ r.failsOutside = true ∧ r.joinsOnLoad = true ∧ r.passThrough = true :=\n"
            "  SE.Proofs.C18.C18_adapter_table extractedAdapters (by decide) c\n")
     ctx.obligation("adapter_table_threads_audio_dir", src, {"rows": rows})
-    ctx.discharge(["Proofs.C18"])
 
 
 def _model_args(*keys):
@@ -625,6 +1283,8 @@ OPS = {
     "relocate_many": Op("relocate_many", _impl_relocate_many, holds=_holds_relocate_many, compare=_cmp_list,
                         nontrivial=lambda i, o: any("val" in x for x in o),
                         to_model=_model_args("collection", "save_dir", "load_dirs")),
+    "session": Op("session", _impl_session, holds=_holds_session, compare=_cmp_session, to_model=_session_to_model,
+                  nontrivial=lambda i, o: isinstance(o, dict) and any(isinstance(x, dict) and "val" in x for x in o.get("steps", []))),
     "relocate_chain": Op("relocate_chain", _impl_relocate_chain, holds=_holds_relocate_chain, compare=_cmp_list,
                          nontrivial=lambda i, o: any("val" in x for x in o),
                          to_model=lambda i: {"collection": i["collection"],
@@ -634,11 +1294,14 @@ OPS = {
 
 
 # ------------------------------------------------------------------ generators
+DEEP_DIR = "/" + "/".join(f"level {i}" for i in range(40))
+LONG_NAME = "n" * 250 + ".wav"
 # directories under which the recordings of a collection lie (absolute and relative; blanks, tabs, decomposed
 # unicode, a repeated name, the two-slash root, `..` inside the directory's own spelling)
 ABS_DIRS = ["/data/audio", "/", "/a b/ünï/x.y", "/data", "/data/audio/sub", "/audio/x/audio", "/data/ audio ",
-            "/estacio\u0301n/grabaciones", "/tab\tdir", "//net/share", "/data/audio/..", "/data/../data/audio", "/..."]
-REL_DIRS = ["rel/dir", "rel", "audio", ".", "", "../up", " rel "]
+            "/estacio\u0301n/grabaciones", "/tab\tdir", "//net/share", "/data/audio/..", "/data/../data/audio", "/...",
+            DEEP_DIR]
+REL_DIRS = ["rel/dir", "rel", "audio", ".", "", "../up", " rel ", "~/audio", "~"]     # `~` is a name like any other
 DIRS = ABS_DIRS + REL_DIRS
 LOAD_DIRS = DIRS + ["/mnt/other disk", "elsewhere", "/mnt/b", "//net/x", "..", "/mnt/ b ", "/mnt/estaci\u00f3n"]
 
@@ -647,7 +1310,7 @@ DIR_PARTS = ["sub", "a b", "ünï", "2024", "x.y", ".hidden", "...", "estacio\u0
 FILE_NAMES = ["rec.wav", "ñandú 1.WAV", "a.b.c.flac", "rec", " ", "grabacio\u0301n n\u0303u.wav", "grabaci\u00f3n \u00f1u.wav",
               "\u1112\u1161\u11ab.wav", " lead.wav", "trail.wav ", "tab\t.wav", "\ttab.wav", "end.wav\t", "..wav", "...",
               "..hidden", "audio", "audio.wav", "data", "~", "-", "#1.wav", "%2e%2e", "a\\b.wav", "new\nline.wav",
-              " nbsp.wav ", "A\u030a.wav", "　"]
+              " nbsp.wav ", "A\u030a.wav", "　", LONG_NAME]
 
 
 def _last_name(base):
@@ -753,7 +1416,7 @@ def _outside_dirs(base):
 
 
 def _pick_how(ctx, rng, who):
-    how = rng.choice(["str", "path"])
+    how = rng.choice(DIR_KINDS_LOAD if who.startswith("load") else DIR_KINDS_SAVE)
     ctx.tally(f"{who} audio_dir as " + how)
     return how
 
@@ -761,17 +1424,28 @@ def _pick_how(ctx, rng, who):
 def _routes_opts(rng):
     """the public route and options of a save / load: mostly soundevent.io with format='aoef'"""
     z = rng.random()
+    o = {}
+    if rng.random() < 0.35:
+        o["build"] = rng.choice(BUILD_HOWS[1:])
+    if rng.random() < 0.15:
+        o["rec_path_as"] = "str"
+    if rng.random() < 0.3:
+        o["target_as"] = rng.choice(["path", "fspath", "pure"])
+    if z < 0.5:
+        return o
     if z < 0.6:
-        return {}
-    if z < 0.7:
-        return {"format": None}
-    if z < 0.8:
-        return {"api": "aoef"}
+        return {"format": None, **o}
+    if z < 0.68:
+        return {"api": "aoef", **o}
+    if z < 0.76:
+        return {"api": rng.choice(["convert", "convert_positional"]), **o}
+    if z < 0.82:
+        return {"api": "positional", **o}
     if z < 0.88:
-        return {"api": "convert"}
+        return {"api": "positional_full", **({"type": True} if rng.random() < 0.5 else {}), **o}
     if z < 0.94:
-        return {"api": "positional"}
-    return {"type": True}
+        return {"api": "aoef_positional", **({"type": True} if rng.random() < 0.5 else {}), **o}
+    return {"type": True, **o}
 
 
 def _collection_cases(ctx, rng, n_per_type):
@@ -813,7 +1487,7 @@ def _collection_cases(ctx, rng, n_per_type):
                 B1, B2 = rng.choice(LOAD_DIRS), rng.choice(LOAD_DIRS)
                 chain.append({"collection": cj, "steps": [
                     {"save_dir": A, "load_dir": B1, "dir_as": hs, "load_as": hl},
-                    {"save_dir": _dir_variant(rng, B1), "load_dir": B2, "dir_as": hl, "load_as": hs},
+                    {"save_dir": _dir_variant(rng, B1), "load_dir": B2, "dir_as": hl, "load_as": hl},
                     {"save_dir": rng.choice([B2, None, "/nowhere"]), "load_dir": None, "dir_as": hs, "load_as": hl}]})
     return stored, reloc, many, chain
 
@@ -915,6 +1589,25 @@ def _route_collection(rng, ty, route, star_path, base):
     return cj
 
 
+def _share_uuids_across_kinds(cj):
+    """the same collection with one uuid used by objects of different kinds (the collection itself, its first
+    member, that member's recording): uuids identify objects within their kind only"""
+    cj = copy.deepcopy(cj)
+    v = cj["value"]
+    recs = _all_recordings(cj)
+    if not recs:
+        return None
+    members = v.get("clip_annotations") or v.get("clip_predictions") or []
+    if members:
+        u = members[0]["clip"]["recording"]["uuid"]
+        if all(m["uuid"] != u for m in members):
+            members[0]["uuid"] = u
+        v["uuid"] = u
+    else:
+        v["uuid"] = recs[0][0]
+    return cj
+
+
 def _route_cases(ctx, rng, reps=1):
     """every route by which a recording can be reached, per collection type: the recording inside the directory
     (stored relative, relocated) and outside it (the whole save fails, nothing is left behind)"""
@@ -937,16 +1630,32 @@ def _route_cases(ctx, rng, reps=1):
                 pre = rng.choice([None, "file", "fresh_dir"])
                 stored.append({"collection": cout, "audio_dir": A, "dir_as": hs, **({"pre": pre} if pre else {})})
                 ctx.tally(f"route {ty}:{route}")
+                # the same route when the collection is an instance of a user-defined subclass of its class (the
+                # adapter is then found by isinstance, not by the exact class), and when it was built by validation
+                # (every occurrence of the recording its own Python object, paths given as str)
+                for how, rp in (("subclass", None), (rng.choice(["validate", "validate_json", "subclass_validate", "copy_deep"]),
+                                                    rng.choice([None, "str"]))):
+                    extra = {"build": how, **({"rec_path_as": rp} if rp else {})}
+                    stored.append({"collection": cin, "audio_dir": A, "dir_as": rng.choice(DIR_KINDS_SAVE), **extra})
+                    stored.append({"collection": cout, "audio_dir": A, "dir_as": rng.choice(DIR_KINDS_SAVE), **extra})
+                    reloc.append({"collection": cin, "save_dir": A, "load_dir": rng.choice(LOAD_DIRS),
+                                  "dir_as": rng.choice(DIR_KINDS_SAVE), "load_as": rng.choice(DIR_KINDS_LOAD), **extra})
+                    ctx.tally(f"route cases built by {how}" + (", paths as str" if rp else ""), 3)
+                shared = _share_uuids_across_kinds(cin)
+                if shared is not None and ty != "evaluation":
+                    stored.append({"collection": shared, "audio_dir": A, "dir_as": hs})
+                    reloc.append({"collection": shared, "save_dir": A, "load_dir": rng.choice(LOAD_DIRS), "dir_as": hs, "load_as": hl})
+                    ctx.tally("route cases with one uuid shared across kinds", 2)
     return stored, reloc
 
 
 # -- small-scope exhaustive grid -------------------------------------------------------------------------------
 GRID_REC = ["/data/audio/x.wav", "/data/audio/sub/x.wav", "/data/audio", "/data/audio/../audio/x.wav", "/data/audio/audio",
             "/data/audio2/x.wav", "/data/x.wav", "data/audio/x.wav", "x.wav", "//data/audio/x.wav", "/data/audio/ x.wav ",
-            "/data/audio/e\u0301.wav", "/data/audio/.../x.wav", "/x.wav"]
+            "/data/audio/e\u0301.wav", "/data/audio/.../x.wav", "/x.wav", "~/x.wav"]
 GRID_SAVE = [None, "/data/audio", "/data/audio/", "/data", "/", "data/audio", "", "/data/audio/sub/..", "/data/audio2",
-             "//data/audio", "/data/aud", "/DATA/audio"]
-GRID_LOAD = [None, "/mnt/b", "/", "", "b c/", "//net/x", ".."]
+             "//data/audio", "/data/aud", "/DATA/audio", "~"]
+GRID_LOAD = [None, "/mnt/b", "/", "", "b c/", "//net/x", "..", "~/b"]
 
 
 def _minimal(rng, ty, path):
@@ -981,18 +1690,56 @@ def _grid_cases(ctx):
         minimal = {p: _minimal(rng, ty, p) for p in GRID_REC}
         for p, A in itertools.product(GRID_REC, GRID_SAVE):
             n += 1
-            how = "path" if n % 2 else "str"
+            how = DIR_KINDS_SAVE[n % 4]
             stored.append({"collection": minimal[p], "audio_dir": A, "dir_as": how})
             fails = _want_relocated({"r": p}, A, None) is None
             for B in GRID_LOAD:
                 n += 1
-                if B is None or (not fails and (n + len(p)) % 3 == 0):
+                if B is None or (not fails and (n + len(p)) % 4 == 0):
                     reloc.append({"collection": minimal[p], "save_dir": A, "load_dir": B, "dir_as": how,
-                                  "load_as": "str" if n % 4 < 2 else "path"})
-    ctx.exhaustive["stored: 8 types x recording path x save directory"] = {
+                                  "load_as": DIR_KINDS_LOAD[n % 3]})
+    ctx.exhaustive["stored: 8 types x recording path x save directory (directory as str / Path / os.PathLike / PurePosixPath in turn)"] = {
         "types": len(aoefgen.TYPES), "recording_paths": GRID_REC, "save_dirs": GRID_SAVE, "cases": len(stored)}
-    ctx.exhaustive["relocate: 8 types x recording path x save directory x (load directory: None always; the others 1 in 3 when the save succeeds)"] = {
+    ctx.exhaustive["relocate: 8 types x recording path x save directory x (load directory: None always; the others 1 in 4 when the save succeeds)"] = {
         "load_dirs": GRID_LOAD, "cases": len(reloc)}
+    return stored, reloc
+
+
+PRODUCT_APIS = [{}, {"format": None}, {"api": "aoef"}, {"api": "positional"}, {"api": "positional_full"},
+                {"api": "aoef_positional"}, {"api": "convert"}, {"api": "convert_positional"}]
+
+
+def _product_cases(ctx):
+    """the options of the public functions against each other and against the input classes (HISTORIES.md 3):
+    collection type x public route (keyword and positional) x kind of the directory argument x recording inside /
+    outside, with the construction path, the kind of `Recording.path` and the kind of the file name taken in turn"""
+    rng = random.Random("C18-product")
+    stored, reloc = [], []
+    n = 0
+    for ty in aoefgen.TYPES:
+        cin = _minimal(rng, ty, "/data/audio/sub dir/x.wav")
+        cout = _minimal(rng, ty, "/data/audio2/x.wav")
+        for api in PRODUCT_APIS:
+            for how in DIR_KINDS_SAVE:
+                for cj in (cin, cout):
+                    n += 1
+                    extra = {"build": BUILD_HOWS[n % len(BUILD_HOWS)], "target_as": ["str", "path", "fspath", "pure"][(n // 2) % 4]}
+                    if n % 3 == 0:
+                        extra["rec_path_as"] = "str"
+                    if cj is cout:
+                        extra["pre"] = [None, "file", "longer", "fresh_dir"][(n // 2) % 4]
+                    stored.append({"collection": cj, "audio_dir": "/data/audio" if n % 5 else "/data/audio/", "dir_as": how,
+                                   **api, **{k: v for k, v in extra.items() if v}})
+            for hl in DIR_KINDS_LOAD:
+                for with_type in ((False, True) if api.get("api") in (None, "aoef", "positional_full", "aoef_positional") else (False,)):
+                    n += 1
+                    reloc.append({"collection": cin, "save_dir": "/data/audio", "load_dir": ["/mnt/b", "rel b", "/", None][n % 4],
+                                  "dir_as": DIR_KINDS_SAVE[n % 4], "load_as": hl, **api, **({"type": True} if with_type else {}),
+                                  "build": BUILD_HOWS[n % len(BUILD_HOWS)], "target_as": ["str", "path", "fspath", "pure"][n % 4]})
+    ctx.exhaustive["stored: 8 types x 8 public routes (keyword / positional / converters) x 4 kinds of audio_dir x inside / outside"] = {
+        "routes": PRODUCT_APIS, "dir_kinds": DIR_KINDS_SAVE, "cases": len(stored)}
+    ctx.exhaustive["relocate: 8 types x 8 public routes x 3 kinds of load directory x with / without type="] = {
+        "load_dir_kinds": DIR_KINDS_LOAD, "cases": len(reloc)}
     return stored, reloc
 
 
@@ -1021,53 +1768,302 @@ def _disk_cases(ctx):
     return stored, reloc
 
 
-def _large_cases(ctx):
-    """collections far larger than the generator's usual ones (a batch / fast path for long lists would show here):
-    every recording inside, and the last / a middle one outside"""
-    rng = random.Random("C18-large")
-    stored, reloc = [], []
-    for ty in aoefgen.TYPES:
-        n = 130 if ty in ("recording_set", "dataset") else 36
-        g = PGen(rng, base="/data/audio", size=0.8, itself=0.0)
-        g.recordings = [g.recording(i) for i in range(n)]
-        g.clips = [dict(g.clip(), recording=copy.deepcopy(r)) for r in g.recordings]
-        cj = g.collection(ty)
-        v = cj["value"]
-        if ty in ("recording_set", "dataset"):
-            v["recordings"] = copy.deepcopy(g.recordings)
-        elif ty in ANN_TYPES:
-            v["clip_annotations"] = [g.ca(copy.deepcopy(c)) for c in g.clips]
-            if ty == "annotation_project":
-                v["tasks"] = [g.task(c) for c in g.clips]
-        elif ty in PRED_TYPES:
-            v["clip_predictions"] = [g.cp(copy.deepcopy(c)) for c in g.clips]
-        else:
-            old = g.clips
-            ces = []
-            for c in old:
-                g.clips = [c]
-                ces.append(g.ce())
-            g.clips = old
-            v["clip_evaluations"] = ces
-        stored.append({"collection": cj, "audio_dir": "/data/audio", "dir_as": "path"})
-        reloc.append({"collection": cj, "save_dir": "/data/audio/", "load_dir": "/mnt/other disk", "dir_as": "str", "load_as": "path"})
-        for where in (n - 1, n // 2):
-            bad = copy.deepcopy(cj)
-            u = g.recordings[where]["uuid"]
+def _py_coherent(cj):
+    """coherence of a generated collection, checked on the JSON itself (the part of `WF` that the generator can break:
+    every object with one uuid is one value; the collection's own member lists have distinct uuids).  Used instead of
+    the model's `wf` for the very large collections only, where the model's quadratic test takes minutes."""
+    seen = {}
 
-            def move(x):
-                if isinstance(x, dict):
-                    if x.get("uuid") == u and "samplerate" in x:
-                        x["path"] = "/data/audio2/stray.wav"
-                    for y in x.values():
-                        move(y)
-                elif isinstance(x, list):
-                    for y in x:
-                        move(y)
-            move(bad)
-            stored.append({"collection": bad, "audio_dir": "/data/audio", "dir_as": "str", "pre": "file"})
-    ctx.tally("large collections (130 recordings / 36 clips)", len(stored) + len(reloc))
-    return stored, reloc
+    def walk(x):
+        if isinstance(x, dict):
+            u = x.get("uuid")
+            if u is not None:
+                first = seen.setdefault(u, x)
+                if first is not x and first != x:
+                    return False
+            return all(walk(v) for v in x.values())
+        if isinstance(x, list):
+            return all(walk(v) for v in x)
+        return True
+    if not walk(cj):
+        return False
+    for key in ("recordings", "clip_annotations", "clip_predictions", "clip_evaluations", "tasks"):
+        ms = cj["value"].get(key)
+        if ms is not None and len({m["uuid"] for m in ms}) != len(ms):
+            return False
+    return True
+
+
+def _large_collection(rng, ty, n, lean=0.8):
+    """a collection of type `ty` with `n` recordings, each reached through its own clip (member lists for the
+    two recording-list types); the second result is the recordings in member order"""
+    g = PGen(rng, base="/data/audio", size=lean, itself=0.0)
+    g.recordings = [g.recording(i) for i in range(n)]
+    if n > 36:       # keep the very large ones small per recording: the paths are what matters here
+        for r in g.recordings:
+            r.update(owners=[], tags=r["tags"][:1], features=[], notes=[])
+    g.clips = [dict(g.clip(), recording=copy.deepcopy(r)) for r in g.recordings]
+    cj = g.collection(ty)
+    v = cj["value"]
+    if ty in ("recording_set", "dataset"):
+        v["recordings"] = copy.deepcopy(g.recordings)
+    elif ty in ANN_TYPES:
+        v["clip_annotations"] = [g.ca(copy.deepcopy(c)) for c in g.clips]
+        if ty == "annotation_project":
+            v["tasks"] = [g.task(c) for c in g.clips]
+    elif ty in PRED_TYPES:
+        v["clip_predictions"] = [g.cp(copy.deepcopy(c)) for c in g.clips]
+    else:
+        old = g.clips
+        ces = []
+        for c in old:
+            g.clips = [c]
+            ces.append(g.ce())
+        g.clips = old
+        v["clip_evaluations"] = ces
+    return cj, g.recordings
+
+
+def _with_outsider(cj, uuid, path="/data/audio2/stray.wav"):
+    bad = copy.deepcopy(cj)
+
+    def move(x):
+        if isinstance(x, dict):
+            if x.get("uuid") == uuid and "samplerate" in x:
+                x["path"] = path
+            for y in x.values():
+                move(y)
+        elif isinstance(x, list):
+            for y in x:
+                move(y)
+    move(bad)
+    return bad
+
+
+def _large_cases(ctx):
+    """collections far larger than the generator's usual ones, at the sizes where an implementation could switch
+    strategy (more than 16, more than 256, 1024 and more recordings: sorting, chunking, batching): every recording
+    inside, and the outsider first / in the middle / last.  -> (cases checked by the model's `wf`, cases checked by
+    `_py_coherent`)"""
+    rng = random.Random("C18-large")
+    small, huge = ([], []), ([], [])
+    full = ctx.thorough()
+    plan = {   # type -> [(number of recordings, positions of the outsider: first / middle / last)]
+        "recording_set": [(17, "fml"), (257, "f"), (1024, "m"), (1025, "l")],
+        "dataset": [(17, "fml"), (1100, "l")] + ([(257, "m"), (1024, "f")] if full else []),
+        "annotation_project": [(17, "fml"), (257, "m")] + ([(1030, "l")] if full else []),
+        "prediction_set": [(17, "fml"), (36, "m")] + ([(257, "f"), (1030, "l")] if full else []),
+        "evaluation": [(17, "fml"), (257, "l")] + ([(1030, "m")] if full else []),
+    }
+    for ty in aoefgen.TYPES:
+        member = ty in ("recording_set", "dataset")
+        for n, positions in plan.get(ty, [(17, "fml"), (36, "l")] + ([(257, "f"), (1030, "l")] if full else [])):
+            cj, recs = _large_collection(rng, ty, n, lean=0.8 if n <= 36 else 0.0)
+            stored, reloc = small if (member or n <= 36) else huge
+            hs, hl = rng.choice(DIR_KINDS_SAVE), rng.choice(DIR_KINDS_LOAD)
+            stored.append({"collection": cj, "audio_dir": "/data/audio", "dir_as": hs})
+            reloc.append({"collection": cj, "save_dir": "/data/audio/", "load_dir": "/mnt/other disk", "dir_as": hs, "load_as": hl})
+            for where in positions:
+                i = {"f": 0, "m": n // 2, "l": n - 1}[where]
+                stored.append({"collection": _with_outsider(cj, recs[i]["uuid"]), "audio_dir": "/data/audio",
+                               "dir_as": rng.choice(DIR_KINDS_SAVE), "pre": rng.choice(["file", "longer"])})
+            ctx.tally(f"large collection: {ty} with {n} recordings", 2 + len(positions))
+    return small, huge
+
+
+# -- sessions ---------------------------------------------------------------------------------------------------
+def _opts(rng, load=False):
+    """how one save / load of a session is called: directory kind, public route, kind of the file name"""
+    o = {"dir_as": rng.choice(DIR_KINDS_LOAD if load else DIR_KINDS_SAVE), "api": rng.choice(FILE_APIS),
+         "target_as": rng.choice(["str", "str", "path", "fspath", "pure"])}
+    if o["api"] == "io" and rng.random() < 0.2:
+        o["format"] = None
+    return o
+
+
+def _inside_name(rng, base, tag):
+    name = rng.choice(["moved.wav", "ñ moved.wav", " moved ", "sub/moved.wav", "estacio\u0301n.wav"])
+    return str(PurePosixPath(base or ".") / f"{tag}" / name)
+
+
+def _session_templates(ctx, rng, ty, which):
+    """one session of each kind for the collection type `ty` (see HISTORIES.md section 1)"""
+    base = rng.choice(["/data/audio", "/a b/ünï/x.y", "rel/dir", "/data/ audio ", "/", "", "~/audio", "/data/../data/audio"])
+    other = rng.choice(["/mnt/other disk", "elsewhere", "/mnt/b", "//net/x", "~", "/mnt/ b "])
+    third = rng.choice(["/srv/third", "third dir", "/"])
+    A = _dir_variant(rng, base)
+    anc = _dir_variant(rng, rng.choice(_ancestors(base or ".")))
+    outside = rng.choice(_outside_dirs(base))
+    big = PGen(rng, rich=rng.random() < 0.3, base=base, size=1.2, itself=0.0).collection(ty)
+    route = rng.choice(ROUTES[ty])
+    if not _all_recordings(big) or rng.random() < 0.5:
+        big = _route_collection(rng, ty, route, PGen(rng, base=base, itself=0.0, size=0.0).path(3), base)
+    small_ty = ty if rng.random() < 0.7 else rng.choice(aoefgen.TYPES)
+    small = _minimal(rng, small_ty, str(PurePosixPath(base or ".") / "only one.wav"))
+    stray = "/somewhere else/stray.wav" if not base.startswith("/somewhere") else "/x/stray.wav"
+    if base == "/":
+        stray = "relative/stray.wav"
+    bad = _route_collection(rng, ty, rng.choice(ROUTES[ty]), stray, base)
+    recs = _all_recordings(big)
+    P = rng.choice(recs)[1] if recs else None
+    sv = lambda obj, f, d, **kw: {"do": "save", "obj": obj, "file": f, "audio_dir": d, **_opts(rng), **kw}
+    ld = lambda f, d, into, **kw: {"do": "load", "file": f, "audio_dir": d, "into": into, **_opts(rng, load=True), **kw}
+    put = lambda obj, cj, how="ctor", **kw: {"do": "put", "obj": obj, "collection": cj, "how": how, **kw}
+    how = rng.choice(BUILD_HOWS)
+    ctx.tally("session kind: " + which)
+    if which == "same target: longer, shorter, longer":
+        return [put("a", big, how), put("b", small), sv("a", "f", A), ld("f", other, "x"), sv("b", "f", anc),
+                ld("f", third, "y"), sv("a", "f", None), ld("f", None, "z"), sv("b", "f", None), ld("f", other, "w")]
+    if which == "failing save over an existing file":
+        return [put("a", big), put("bad", bad, how), sv("a", "f", A), sv("bad", "f", A), ld("f", other, "x"),
+                sv("a", "f", outside), ld("f", third, "y"), sv("bad", "g", A), sv("a", "g", anc), ld("g", other, "z")]
+    if which == "same objects, other directories and files":
+        return [put("a", big, how), sv("a", "f", A), sv("a", "g", anc), sv("a", "f", None), ld("g", other, "x"),
+                ld("f", other, "y"), sv("a", "g", outside), ld("g", None, "z"), sv("a", "f", A), ld("f", third, "w")]
+    if which == "recording moved after the first save" and P is not None:
+        P2 = _inside_name(rng, base, "m1")
+        P3 = "/moved right out/of it.wav" if base != "/" else "moved right out/of it.wav"
+        h1, h2 = rng.choice(MOVE_HOWS), rng.choice(MOVE_HOWS)
+        return [put("a", big, how), sv("a", "f", A), {"do": "move", "obj": "a", "src": P, "dst": P2, "how": h1},
+                sv("a", "g", A), ld("g", other, "x"), ld("f", other, "y"),
+                {"do": "move", "obj": "a", "src": P2, "dst": P3, "how": h2}, sv("a", "f", A), ld("f", third, "z"),
+                sv("a", "f", None), ld("f", third, "w")]
+    if which == "loaded object changed and saved back" and P is not None:
+        try:
+            rel = PurePosixPath(P).relative_to(PurePosixPath(A))
+        except ValueError:
+            return None
+        Q = str(PurePosixPath(other) / rel)
+        Q2 = _inside_name(rng, other, "m2")
+        return [put("a", big), sv("a", "f", A), ld("f", other, "x"),
+                {"do": "move", "obj": "x", "src": Q, "dst": Q2, "how": rng.choice(MOVE_HOWS)}, sv("x", "f", other),
+                ld("f", third, "y"), sv("y", "g", third), ld("g", None, "z"), sv("a", "f", anc), ld("f", other, "w")]
+    if which == "caller changes a loaded object":
+        return [put("a", big, how), sv("a", "f", A), ld("f", other, "x"), {"do": "poison", "obj": "x"}, ld("f", other, "y"),
+                ld("f", third, "z"), {"do": "poison", "obj": "y"}, ld("f", other, "w"), sv("a", "f", anc), ld("f", other, "v")]
+    if which == "one document converted several times":
+        if _converters() is None:
+            return None
+        cv = lambda obj, doc, d: {"do": "convert", "obj": obj, "doc": doc, "audio_dir": d, "dir_as": rng.choice(DIR_KINDS_SAVE),
+                                  **({"positional": True} if rng.random() < 0.3 else {})}
+        rv = lambda doc, d, into: {"do": "revive", "doc": doc, "audio_dir": d, "into": into, "dir_as": rng.choice(DIR_KINDS_LOAD),
+                                   **({"positional": True} if rng.random() < 0.3 else {})}
+        return [put("a", big, how), cv("a", "D", A), rv("D", other, "x"), rv("D", third, "y"), rv("D", None, "z"),
+                {"do": "dump", "doc": "D", "file": "f"}, ld("f", third, "w"), {"do": "parse", "file": "f", "doc": "E"},
+                rv("E", other, "u"), rv("E", third, "v"), rv("D", other, "t"), cv("a", "D", anc), rv("D", third, "s"),
+                cv("a", "F", outside), {"do": "dump", "doc": "E", "file": "g"}, ld("g", None, "r")]
+    if which == "construction paths of one content":
+        hows = rng.sample(BUILD_HOWS, 3)
+        steps = []
+        for i, h in enumerate(hows):
+            steps += [put(f"a{i}", big, h, **({"rec_path_as": "str"} if rng.random() < 0.4 else {})),
+                      sv(f"a{i}", "f", rng.choice([A, anc])), ld("f", rng.choice([other, third]), f"x{i}")]
+        return steps + [sv("a0", "g", outside), sv("a1", "g", None), ld("g", other, "y")]
+    return None
+
+
+SESSION_KINDS = ["same target: longer, shorter, longer", "failing save over an existing file",
+                 "same objects, other directories and files", "recording moved after the first save",
+                 "loaded object changed and saved back", "caller changes a loaded object",
+                 "one document converted several times", "construction paths of one content"]
+
+
+def _random_session(ctx, rng, ty):
+    """a random walk over the steps, kept inside what the session has (objects that exist, files that were
+    written); three saves in four use a directory that contains every recording of the object"""
+    base = rng.choice(DIRS + ["~/audio"])
+    pool = LOAD_DIRS + [base]
+    steps = [{"do": "put", "obj": "a", "collection": PGen(rng, base=base, size=0.8, itself=0.0).collection(ty),
+              "how": rng.choice(BUILD_HOWS)}]
+    if rng.random() < 0.5:
+        ty2 = ty if rng.random() < 0.6 else rng.choice(aoefgen.TYPES)
+        steps.append({"do": "put", "obj": "b", "collection": PGen(rng, base=base, size=0.5, itself=0.0).collection(ty2),
+                      "how": rng.choice(BUILD_HOWS)})
+    n_into = 0
+    conv = _converters() is not None
+    for _ in range(rng.randint(5, 9)):
+        want = _session_oracle(steps)
+        files, docs = set(), set()
+        # replay the oracle's bookkeeping (objects alive with their paths, files written)
+        cur = {}
+        for st, w in zip(steps, want):
+            if st["do"] in ("put", "move") and w[0] == "recs":
+                cur[st["obj"]] = w[1]
+            elif st["do"] == "load" and w[0] == "recs":
+                cur[st["into"]] = w[1]
+            elif st["do"] == "save" and w[0] == "stored":
+                files.add(st["file"])
+            elif st["do"] == "convert" and w[0] == "stored":
+                docs.add(st["doc"])
+            elif st["do"] == "poison":
+                cur.pop(st["obj"], None)
+        z = rng.random()
+        if z < 0.45 or not (files or docs):
+            k = rng.choice(sorted(cur))
+            cands = [None] + [_dir_variant(rng, d) for d in rng.sample(pool, 4)]
+            inside = [d for d in cands if _want_relocated(cur[k], d, None) is not None]
+            d = rng.choice(inside) if inside and rng.random() < 0.75 else rng.choice(cands)
+            if conv and rng.random() < 0.2:
+                steps.append({"do": "convert", "obj": k, "doc": rng.choice(["D", "E"]), "audio_dir": d,
+                              "dir_as": rng.choice(DIR_KINDS_SAVE)})
+            else:
+                steps.append({"do": "save", "obj": k, "file": rng.choice(["f", "f", "g"]), "audio_dir": d, **_opts(rng)})
+        elif z < 0.8:
+            n_into += 1
+            if docs and rng.random() < 0.4:
+                steps.append({"do": "revive", "doc": rng.choice(sorted(docs)), "audio_dir": rng.choice([None] + rng.sample(pool, 3)),
+                              "into": rng.choice(["x", "y", f"l{n_into}"]), "dir_as": rng.choice(DIR_KINDS_LOAD)})
+                continue
+            if not files:
+                continue
+            steps.append({"do": "load", "file": rng.choice(sorted(files)), "audio_dir": rng.choice([None] + rng.sample(pool, 3)),
+                          "into": rng.choice(["x", "y", f"l{n_into}"]), **_opts(rng, load=True)})
+        elif z < 0.93:
+            k = rng.choice(sorted(cur))
+            if cur[k]:
+                src = rng.choice(sorted(cur[k].values()))
+                home = str(PurePosixPath(src).parent)
+                steps.append({"do": "move", "obj": k, "src": src, "dst": _inside_name(rng, home, f"m{len(steps)}"),
+                              "how": rng.choice(MOVE_HOWS)})
+        else:
+            loaded = [k for k in cur if k not in ("a", "b")]
+            if loaded:
+                steps.append({"do": "poison", "obj": rng.choice(sorted(loaded))})
+    ctx.tally("session kind: random walk")
+    return steps
+
+
+def _session_cases(ctx, rng, reps, walks):
+    cases = []
+    for ty in aoefgen.TYPES:
+        for _ in range(reps):
+            for which in SESSION_KINDS:
+                steps = _session_templates(ctx, rng, ty, which)
+                if steps:
+                    cases.append({"steps": steps})
+        for _ in range(walks):
+            cases.append({"steps": _random_session(ctx, rng, ty)})
+    for c in cases:
+        for st in c["steps"]:
+            ctx.tally("session step: " + st["do"] + (" by " + st["how"] if st["do"] in ("put", "move") else ""))
+            if st["do"] in ("convert", "revive"):
+                ctx.tally(f"session {st['do']}: " + (f"audio_dir as {st['dir_as']}" if st.get("audio_dir") is not None else "no audio_dir")
+                          + (", positional" if st.get("positional") else ""))
+            if st["do"] in ("save", "load"):
+                ctx.tally(f"session {st['do']}: audio_dir as {st['dir_as']}" if st.get("audio_dir") is not None
+                          else f"session {st['do']}: no audio_dir")
+                ctx.tally(f"session {st['do']}: route {st['api']}, file name as {st['target_as']}")
+    return cases
+
+
+def _wf_sessions(ctx, cases):
+    """the theorems' hypothesis (`WF`) on every content a session puts"""
+    flat = [(i, st["collection"]) for i, c in enumerate(cases) for st in c["steps"] if st["do"] == "put"]
+    oks = ctx.driver.call_many("C01", "wf", [{"collection": cj} for _i, cj in flat])
+    bad = {i for (i, _cj), ok in zip(flat, oks) if not ok}
+    if bad:
+        ctx.tally("generated sessions outside the quantifier (a content not well formed), dropped", len(bad))
+    return [c for i, c in enumerate(cases) if i not in bad]
 
 
 def _mixed_outside(rng):
@@ -1156,7 +2152,7 @@ def _histories(ctx, stored):
 
 
 def _collections(ctx):
-    stored, reloc, many, chain = _collection_cases(ctx, ctx.rng, ctx.budget(32, 600))
+    stored, reloc, many, chain = _collection_cases(ctx, ctx.rng, ctx.budget(26, 600))
     ctx.run_cases(OPS["stored"], _wf(ctx, stored))
     ctx.run_cases(OPS["relocate"], _wf(ctx, reloc))
     ctx.run_cases(OPS["relocate_many"], _wf(ctx, many))
@@ -1177,11 +2173,24 @@ def _grid(ctx):
     ctx.run_cases(OPS["relocate"], _wf(ctx, reloc))
 
 
+def _product(ctx):
+    stored, reloc = _product_cases(ctx)
+    ctx.run_cases(OPS["stored"], _wf(ctx, stored))
+    ctx.run_cases(OPS["relocate"], _wf(ctx, reloc))
+
+
 def _special(ctx):
-    for gen in (_disk_cases, _large_cases):
-        stored, reloc = gen(ctx)
-        ctx.run_cases(OPS["stored"], _wf(ctx, stored))
-        ctx.run_cases(OPS["relocate"], _wf(ctx, reloc))
+    stored, reloc = _disk_cases(ctx)
+    ctx.run_cases(OPS["stored"], _wf(ctx, stored))
+    ctx.run_cases(OPS["relocate"], _wf(ctx, reloc))
+    (stored, reloc), (hstored, hreloc) = _large_cases(ctx)
+    ctx.run_cases(OPS["stored"], _wf(ctx, stored) + [c for c in hstored if _py_coherent(c["collection"])])
+    ctx.run_cases(OPS["relocate"], _wf(ctx, reloc) + [c for c in hreloc if _py_coherent(c["collection"])])
+
+
+def _sessions(ctx):
+    cases = _session_cases(ctx, ctx.rng, ctx.budget(1, 8), ctx.budget(2, 16))
+    ctx.run_cases(OPS["session"], _wf_sessions(ctx, cases))
 
 
 def run(ctx):
@@ -1190,12 +2199,17 @@ def run(ctx):
     ctx.stage("paths", _paths, ctx)
     ctx.stage("grid", _grid, ctx)
     ctx.stage("routes", _routes, ctx)
+    ctx.stage("options x input classes", _product, ctx)
     ctx.stage("on disk / large", _special, ctx)
     ctx.stage("collections", _collections, ctx)
+    ctx.stage("sessions", _sessions, ctx)
+    if _FALLBACKS[0]:
+        ctx.tally("construction path did not reproduce the content: constructors used instead", _FALLBACKS[0])
 
 
 def search(ctx, failures):
     rng = random.Random("C18-search")
+    ctx.run_cases(OPS["session"], _wf_sessions(ctx, _session_cases(ctx, rng, 1, 2)))
     stored, reloc, many, chain = _collection_cases(ctx, rng, 20)
     ctx.run_cases(OPS["stored"], _wf(ctx, stored))
     ctx.run_cases(OPS["relocate"], _wf(ctx, reloc))
